@@ -202,6 +202,29 @@ fn run<C: Cs>(ctx: &Ctx, idx: u64, nmax: usize, mixes: usize) {
                 // signature differs), so they must not verify either (F18: verify now accepts only v in (0, N))
                 must_fail::<C>(ctx, &format!("component#{nm}"), &case, &forged, &pk, &bases, &msgs, json!({"edit":nm}));
             }
+            // search forgeries without the key: trivial v (1, N-1, 2) with s ranging over many values. The two sides of the
+            // verification equation are then unrelated residues; any verifier that compares less than the whole value (a
+            // prefix, some bytes, a truncated digest) lets a fraction of these through.
+            if mix == 0 && n <= 2 {
+                let tries = ctx.t(1500usize, 12000usize);
+                let mut accepted: Vec<String> = vec![];
+                let m = ctx.call("verify_multiattr x N (s search)", &case, None, || {
+                    for (vn, v2) in [("1", Integer::from(1)), ("N-1", Integer::from(&pk.N - 1u32)), ("2", Integer::from(2))] {
+                        for j in 0..tries / 3 {
+                            let forged = sig_from::<C>(&sig, &e, &Integer::from(&s + (j as u32 + 1)), &v2);
+                            if forged.verify_multiattr(&pk, &bases, &msgs) {
+                                accepted.push(format!("v={vn}, s+{}", j + 1));
+                            }
+                        }
+                    }
+                    Ok::<_, ()>(())
+                });
+                let _ = m;
+                ctx.count("forgery_search_attempts(trivial v, s range)", tries as u64);
+                if !accepted.is_empty() {
+                    ctx.violation("C13:accepted/searched-forgery-with-trivial-v", json!({"case":case,"hits":accepted.iter().take(5).collect::<Vec<_>>(),"attempts":tries}));
+                }
+            }
             // other bases / other key
             let mut b2 = bases.clone();
             b2.0.reverse();
